@@ -68,6 +68,19 @@ CLAIMS = {
    text="Theorem C18_all_interleavings: in the LTS model of meter/meter.go (worker ops Start/Inc/Done in program order, ticks of every ticker goroutine ever started interleaved arbitrarily, each tick atomic under the mutex with the ticker-identity test), every schedule that completes the program yields output that is, phase by phase, a sorted run of progress frames bounded by the phase's work followed by exactly one final frame with the exact count, and nothing else (no stale frame after Done). C18_final_exact, C18_acceptor_sound, C18_counts_are_census (phase work = census counts). Tie: the real meter driven with 1us-1ms tickers and random scripts, recorded frames accepted by the proved-sound acceptor; CLI --progress vs --no-progress (identical stdout, final lines = census).",
    note="PARTIAL: real timing is sampled, not enumerated; atomicity of Inc (sync/atomic) and of the locked sections is an assumption of the LTS. Trusted: Coq kernel, extraction, harness.",
    technique="Coq proof over all interleavings of an LTS + randomized timing runs of the real meter"),
+
+ "C10": dict(
+   text="Theorems on Protocol.run_with: C10_all_or_nothing (a report produced under a fault equals the fault-free report) and C10_fault_fails (a fault on a reached invocation makes the run fail wherever the output is cut), for every invocation list, cut point and status other than 0/1; the documented exception `git config --get` exit 1 = unset is part of the model (status_ok). Tie and fault enumeration: a fault-injecting fake git cuts each of the 13 invocations of a run at several byte offsets and ends with exit 128/2/1, SIGKILL or SIGTERM; the CLI must fail cleanly (non-zero, empty stdout, message) within 20 s, or succeed identically where the model accepts the status; plus every object missing in turn, shallow, no repository, invalid options/ROOT/gitconfig.",
+   note="PARTIAL: goroutine/pipe deadlocks live in the runtime; the theorem cannot exhibit a hang, only the per-run timeout can. Trusted: Coq kernel, extraction, harness, fakegit's emulation of process failure. Found and repaired: exit status of cat-file --batch ignored after the last object (c784bf1).",
+   technique="Coq proof on consumer/status model + systematic fault injection through a fake git", category="proof"),
+ "C13": dict(
+   text="Theorems C13_flags / C13_gitdir_first on Protocol.trace: every git invocation except the initial `git -C . rev-parse --git-dir` carries --no-replace-objects, the graft advice setting, GIT_DIR and GIT_GRAFT_FILE=/dev/null. Tie: argv and environment of every invocation logged by a fake git are compared with the model's trace for generated option sets, ROOTs and refgroup configs; on real git the same repository is measured from the top, a subdirectory, bare, a linked worktree, via GIT_DIR and as `git -C dir sizer` (byte-identical), with replace refs (commit/tree/blob) and graft entries (report = specification on the stored graph), and as a shallow repository (refused).",
+   note="PARTIAL: that git honours the flags and resolves --git-dir correctly is git's behaviour, observed on real repositories, not proved. Trusted: Coq kernel, extraction, harness.",
+   technique="Coq proof on invocation-trace model + logged traces + real-git addressing modes"),
+ "C17": dict(
+   text="Theorem C17_readonly_cmds: every invocation of Protocol.trace is read-only plumbing (rev-parse, config --list/--get, for-each-ref, rev-list, cat-file). Tie: logged invocations (also on error paths) checked against the whitelist; repository directory hashed before/after; repeated runs under GOMAXPROCS 1/2/16 byte-identical; a -race build of git-sizer runs generated repositories with the progress meter on.",
+   note="PARTIAL: determinism and race-freedom quantify over goroutine schedules, which are sampled (race detector, GOMAXPROCS), not enumerated; what git processes touch on disk is observed by hashing. Trusted: Coq kernel, harness, Go race detector.",
+   technique="Coq proof on invocation-trace model + race detector / repeated runs / directory hashing"),
 }
 
 m = {
